@@ -446,6 +446,8 @@ def run(prop, tier, seed, rep, extra_inputs=None):
     # whatever the property's own generator aims at: one frame of every shape the decoder distinguishes
     import bits_checks
     inputs += [{"bytes": list(b)} for b in bits_checks.shape_frames(random.Random(seed * 13 + 5))]
+    if prop in ("C07", "C01"):
+        inputs += [{"bytes": list(b)} for b in near_integer_speed_frames(random.Random(seed * 17 + 3), 400 if tier == "quick" else 6000)]
     if extra_inputs:
         inputs += extra_inputs
     hx = core.build_hx("std")
@@ -565,6 +567,36 @@ def selftest(prop, rep, events):
         return e
     lo = max(0, idx - 5)
     core.anti_vacuity(rep, "Trace_Decode", sample[lo:idx + 40], [(idx - lo, mut, prop)], name=f"{prop}-selftest")
+
+
+def near_integer_speed_frames(rng, limit):
+    """ground-speed reports whose speed is an integer, or lies just below / above one (a^2 + b^2 = N^2, N^2 - 1, N^2 + 1),
+    subsonic and supersonic: where a narrower float or another rounding of the norm shows"""
+    import math
+    cand = {1: [], 2: []}
+    for a in range(0, 1023):
+        for b_ in range(a, 1023):
+            q2 = a * a + b_ * b_
+            for st, scale in ((1, 1), (2, 4)):
+                s2 = scale * scale * q2                  # the speed squared, in kt^2
+                n = math.isqrt(s2)
+                if n * n == s2 or (n + 1) * (n + 1) == s2 + 1 or n * n == s2 - 1:
+                    cand[st].append((a, b_))
+    out = []
+    for st in (1, 2):
+        pairs = cand[st]
+        rng.shuffle(pairs)
+        # a random part and the fastest ones (where a 24-bit mantissa no longer holds the fraction)
+        chosen = pairs[:limit] + sorted(pairs, key=lambda p: -(p[0] * p[0] + p[1] * p[1]))[:limit]
+        for (a, b_) in chosen:
+            f = es_frame(rng, rng.choice((17, 18)), 19)
+            setf(f, 37, 3, st)
+            ew, ns = (a, b_) if rng.random() < 0.5 else (b_, a)
+            setf(f, 32 + 13, 1, rng.randrange(2)); setf(f, 32 + 14, 10, ew + 1)
+            setf(f, 32 + 24, 1, rng.randrange(2)); setf(f, 32 + 25, 10, ns + 1)
+            setf(f, 32 + 37, 9, rng.randrange(1, 512))
+            out.append(f)
+    return out
 
 
 def reader_path_checksums(rng, tier, rep, hx):
